@@ -3425,3 +3425,30 @@ pub mod verif_hooks_reconfunits {
         }
     }
 }
+
+#[cfg(feature = "verif-hooks")]
+pub mod verif_hooks_unitmetrics {
+    //! Verification hooks (add-only, area UnitMetrics): a `Component` that
+    //! registers its metrics sources with a collection the harness holds, so
+    //! that `metrics::Collection::assemble` (what `/metrics` serves) can be
+    //! asked for the exposition of several real sources.
+    use super::*;
+
+    pub fn component_with_metrics(
+        name: &str,
+        type_name: &'static str,
+        ingresses: Arc<ingress::Register>,
+        metrics: metrics::Collection,
+    ) -> Component {
+        Component {
+            name: name.into(),
+            type_name,
+            http_client: None,
+            metrics: Some(metrics),
+            http_resources: Default::default(),
+            roto_compiled: None,
+            tracer: Default::default(),
+            ingresses,
+        }
+    }
+}
